@@ -1,13 +1,14 @@
 """C05 — non-decimal radix string->float parsing is correctly rounded."""
 import gens
 import gens_algos
+import gens_slow
 from props.common import TRUSTED_BASE, ASSUMPTIONS
 
 ID = "C05"
-LEAN_MODULES = ["LexVerif.Props.C05", "LexVerif.Props.RoundNE", "LexVerif.Props.TablesParse", "LexVerif.Props.Literals.ParseFloatParse", "LexVerif.Props.Literals.ParseFloatNumber", "LexVerif.Props.Literals.ParseFloatLemire", "LexVerif.Props.Literals.ParseFloatBellerophon", "LexVerif.Props.Literals.ParseFloatSlow", "LexVerif.Props.Literals.ParseFloatBigint", "LexVerif.Props.Literals.ParseFloatShared", "LexVerif.Props.Literals.ParseFloatFloat", "LexVerif.Props.Literals.ParseFloatMask", "LexVerif.Props.Literals.ParseFloatLimits", "LexVerif.Props.Literals.ParseIntegerAlgorithm", "LexVerif.Props.Literals.UtilDigit", "LexVerif.Props.Literals.UtilStep", "LexVerif.Props.Literals.ParseFloatBinary", "LexVerif.Props.LiteralsModel"]
+LEAN_MODULES = ["LexVerif.Props.C05", "LexVerif.Props.C01Slow", "LexVerif.Props.RoundNE", "LexVerif.Props.TablesParse", "LexVerif.Props.Literals.ParseFloatParse", "LexVerif.Props.Literals.ParseFloatNumber", "LexVerif.Props.Literals.ParseFloatLemire", "LexVerif.Props.Literals.ParseFloatBellerophon", "LexVerif.Props.Literals.ParseFloatSlow", "LexVerif.Props.Literals.ParseFloatBigint", "LexVerif.Props.Literals.ParseFloatShared", "LexVerif.Props.Literals.ParseFloatFloat", "LexVerif.Props.Literals.ParseFloatMask", "LexVerif.Props.Literals.ParseFloatLimits", "LexVerif.Props.Literals.ParseIntegerAlgorithm", "LexVerif.Props.Literals.UtilDigit", "LexVerif.Props.Literals.UtilStep", "LexVerif.Props.Literals.ParseFloatBinary", "LexVerif.Props.LiteralsModel"]
 GEN = ["parse_tables", "literals"]
 TRUSTED = TRUSTED_BASE + [
-    "the big-integer slow paths (byte_comp, digit_comp) for generic radices are NOT proved in Lean; proved: the oracle, the per-radix tables, "
+    "of the big-integer slow paths digit_comp (even radices) IS proved on its Lean model under the bracket precondition (Props/C01Slow.lean; open: truncation_invariant), byte_comp (odd radices) is modelled (limbs) but NOT proved; proved: the oracle, the per-radix tables, "
     "the fast path for every radix, the complete power-of-two path (binary, slow_binary) and Bellerophon for all 29 generic radices on their Lean models; "
     "the slow paths are compared with the oracle on per-radix number-theoretic worst cases",
     "IEEE assumption of the fast path: u64->float conversion, float * and / are correctly rounded",
@@ -20,8 +21,8 @@ MIXED = [(4, 2), (8, 2), (16, 2), (32, 2), (16, 4)]
 
 
 TECHNIQUE = 'Lean 4 proof (oracle; per-radix tables incl. split_radix/large powers kernel-checked for all 35 radices) + correspondence on per-radix worst cases and mixed-base formats'
-LEVEL_TEXT = 'Proved in Lean: the oracle (roundNE/litBits) and, for all 35 radices, that small/large power tables, Bellerophon tables, limits, steps and split_radix regenerated from the crate equal their closed forms (this is the theorem family that exposes a wrong split_radix arm). Also proved on Lean models tied to the code by component-level correspondence (ops fp/bin/sbin): try_fast_path is exact for all 35 radices; the power-of-two path is complete: binary returns roundNE(m*base^e) whenever it decides (denormals, half-way/even, zero/infinity cut-offs, no exclusions: the invalid-marker overflow at power2 >= 32768 was fixed in /repo 6cdda4d and binary_marker_overflow is now a positive regression example), a valid answer for a truncated mantissa is right for every value in [M, M+1), and slow_binary (digit loops, leading zeros, sticky flag) returns roundNE of the whole literal when binary was undecided. Bellerophon is proved sound on its model for all 29 generic radices, radix and compact tables, truncated mantissas included (bellerophon_radix_sound). NOT proved: byte_comp/digit_comp (big-integer slow paths); they are compared with the oracle on per-radix worst cases, exponent cut-offs, long tails and the five mixed-base formats x three exponent radices. Partial proof, stated as such.'
-LEVEL_NOTE = 'Trusted: Lean kernel; rustc; R dump+generator; differential harness; IEEE-754 correct rounding of int->float, * and / (fast path). Lean models of number.rs, binary.rs, bellerophon.rs, shared.rs rounding agree with the compiled code on component-level streams; slow.rs/bigint.rs are modelled by the oracle only.'
+LEVEL_TEXT = 'Proved in Lean: the oracle (roundNE/litBits) and, for all 35 radices, that small/large power tables, Bellerophon tables, limits, steps and split_radix regenerated from the crate equal their closed forms (this is the theorem family that exposes a wrong split_radix arm). Also proved on Lean models tied to the code by component-level correspondence (ops fp/bin/sbin): try_fast_path is exact for all 35 radices; the power-of-two path is complete: binary returns roundNE(m*base^e) whenever it decides (denormals, half-way/even, zero/infinity cut-offs, no exclusions: the invalid-marker overflow at power2 >= 32768 was fixed in /repo 6cdda4d and binary_marker_overflow is now a positive regression example), a valid answer for a truncated mantissa is right for every value in [M, M+1), and slow_binary (digit loops, leading zeros, sticky flag) returns roundNE of the whole literal when binary was undecided. Bellerophon is proved sound on its model for all 29 generic radices, radix and compact tables, truncated mantissas included (bellerophon_radix_sound). The big-integer slow path of the 12 even generic radices (digit_comp: 6, 12, 14, 18, 20, 22, 24, 26, 28, 30, 34, 36) is proved on its Lean model (Model/Slow.lean, tied by the component op sl, 0 mismatches, the error float coming from the real / the modelled Bellerophon) for all digit strings and exponents, f32/f64, builds radix and compact+radix (Props/C01Slow.lean): parseMantissa_value (exact digits, +1 iff a non-zero digit is cut, no capacity overflow), positive_digit_comp_correct (= roundNE(M*r^e) whenever M*r^e fits BIGINT_LIMBS), negative_digit_comp_correct (= roundNE(M/r^j) given the bracket b <= x <= next(b) of the error float and the capacity guard; the comparison with b+h through split_radix/large powers is exact), slow_radix_correct, value_untruncated/value_zero_tail; the table facts pow needs (split_radix, large powers, u64_power_limit, small int powers for r, r/2, 2) are kernel-evaluated for every such radix. byte_comp (odd radices) is modelled on limbs (Model/SlowBytes.lean: large_quorem etc.), agrees with the code on the sl stream (upper- and lower-case digits: compare_bytes compared raw bytes with upper-case digit characters until /repo 6651793, found by this model; byte_comp_lowercase_regression is now a positive example) and is NOT proved. NOT proved either: truncation_invariant (non-zero cut tail vs max_digits), the bracket itself for the invalid results of Bellerophon, a per-radix bound of the exponents Bellerophon can hand over (capacity guard discharged only for decimal). Those parts are compared with the oracle on per-radix worst cases, exponent cut-offs, long tails and the five mixed-base formats x three exponent radices. Partial proof, stated as such.'
+LEVEL_NOTE = 'Trusted: Lean kernel; rustc; R dump+generator; differential harness; IEEE-754 correct rounding of int->float, * and / (fast path). Lean models of number.rs, binary.rs, bellerophon.rs, shared.rs rounding agree with the compiled code on component-level streams; slow.rs/bigint.rs have a value-level Lean model with the real capacity checks (digit_comp) and a limb-level one (byte_comp), op sl.'
 
 
 def feature_sets(tier):
@@ -69,9 +70,12 @@ def streams(tier, rng, fs, profile):
     comp, api = gens_algos.marker_overflow_ops(rng, fs, tier)
     out += [("g-marker", api), ("comp-bin-marker", comp)]
     # pipe-*: the API streams against the algorithmic pipeline model (every radix, mixed bases, slow_binary dispatch)
-    return out + gens_algos.apf_streams(out)
+    out = out + gens_algos.apf_streams(out)
+    return out + gens_slow.slow_streams(rng, fs, tier, rads)   # component level: slow_radix (digit_comp / byte_comp) fed by the moderate path
 
 
 def nontrivial(op, res):
     t = res.split(" ")
+    if op.split(" ")[0] == "sl":
+        return t[0] == "slow" and t[1] not in ("0",)
     return t[0] == "ok" and t[1] not in ("0", "80000000", "8000000000000000", "nan")
